@@ -150,7 +150,13 @@ func (e *Engine) bytesRope(b BytesV) Rope {
 	if b.off.isConst() && b.off.u64() == 0 && b.n == b.obj.cap {
 		return b.obj.rope
 	}
-	return e.ropeSlice(b.obj.rope, b.off, e.tt.Bin("bvadd", b.off, b.n))
+	end := e.tt.Bin("bvadd", b.off, b.n)
+	if end == b.obj.cap || end == e.ropeLen(b.obj.rope) {
+		// a suffix of the backing store: only the lower bound needs locating
+		_, rest := e.splitAt(b.obj.rope, b.off)
+		return rest
+	}
+	return e.ropeSlice(b.obj.rope, b.off, end)
 }
 
 func intWidth(t types.Type) (w int, signed bool, ok bool) {
